@@ -44,7 +44,7 @@ LEVEL_NOTE = ("Trusted: Coq 8.16.1 kernel incl. vm_compute; standard-library axi
               "operations.insert_knot on curve/surface/volume x rational x all direction subsets, wrapper histories; 1e-9 tolerance); "
               "floating-point rounding is modelled as exact.")
 # functions of the numerical core this property rests on that are also tied by the translator (tie theorems: Proofs/GenTie*.v, restated in Props/)
-TRANSLATED = ["helpers.find_span_linear", "helpers.find_spans", "helpers.find_multiplicity", "helpers.knot_insertion_alpha", "helpers.knot_insertion", "helpers.knot_insertion_kv"]
+TRANSLATED = ["helpers.find_span_linear", "helpers.find_spans", "helpers.find_multiplicity", "helpers.knot_insertion_alpha", "helpers.knot_insertion", "helpers.knot_insertion_kv", "utilities.check_params"]
 TECHNIQUE = ("Coq proof (Boehm's identity by induction on the degree; loop invariants of A5.1 over functional arrays; de Boor triangle closed form; "
              "index-map lemmas by lia/nia) on a Gallina model executed by vm_compute against geomdl outputs + exact Fraction before/after oracle")
 
